@@ -45,6 +45,9 @@ type sv struct {
 	f   float64
 	s   string
 	tup []sv
+	// for terms: operator and operands (s holds the canonical rendering)
+	op   string
+	args []sv
 }
 
 func (v sv) String() string {
@@ -284,18 +287,32 @@ func (e *ssaEval) wrapInt(t types.Type, i int64) int64 {
 	return i
 }
 
+// term builds a canonical term: operands of associative-commutative operators are flattened
+// and sorted, so that a|b|c, c|(a|b) and (b|a)|c are the same term.
 func term(op string, args ...sv) sv {
-	var p []string
+	// bit operations are associative and commutative; + and * are only commutative here
+	// (floating-point addition and multiplication do not associate)
+	assoc := op == "|" || op == "&" || op == "^"
+	ac := assoc || op == "+" || op == "*"
+	var flat []sv
 	for _, a := range args {
 		if !a.known() {
 			return sv{}
 		}
+		if assoc && a.k == svSym && a.op == op {
+			flat = append(flat, a.args...)
+		} else {
+			flat = append(flat, a)
+		}
+	}
+	if ac {
+		sort.SliceStable(flat, func(i, j int) bool { return flat[i].String() < flat[j].String() })
+	}
+	var p []string
+	for _, a := range flat {
 		p = append(p, a.String())
 	}
-	if op == "+" || op == "*" || op == "|" || op == "&" || op == "^" {
-		sort.Strings(p)
-	}
-	return symV(op + "(" + strings.Join(p, ",") + ")")
+	return sv{k: svSym, s: op + "(" + strings.Join(p, ",") + ")", op: op, args: flat}
 }
 
 func (e *ssaEval) instr(fr *frame, ins ssa.Instruction) {
@@ -403,6 +420,19 @@ func (e *ssaEval) instr(fr *frame, ins ssa.Instruction) {
 		}
 	case *ssa.Slice:
 		a := e.val(fr, x.X)
+		if a.k == svSym || a.k == svAddr {
+			lo, hi := sv{k: svSym, s: "_"}, sv{k: svSym, s: "_"}
+			if x.Low != nil {
+				lo = e.val(fr, x.Low)
+			}
+			if x.High != nil {
+				hi = e.val(fr, x.High)
+			}
+			if lo.known() && hi.known() {
+				set(x, term("slice", a, lo, hi))
+			}
+			return
+		}
 		if a.k == svString {
 			lo, hi := int64(0), int64(len(a.s))
 			ok := true
@@ -603,10 +633,15 @@ func (e *ssaEval) doCall(fr *frame, x *ssa.Call) sv {
 	}
 	if b, ok := x.Call.Value.(*ssa.Builtin); ok {
 		switch b.Name() {
-		case "len":
+		case "len", "cap":
 			if len(args) == 1 && args[0].k == svString {
 				return intV(int64(len(args[0].s)))
 			}
+			if len(args) == 1 && args[0].known() {
+				return term(b.Name(), args[0])
+			}
+		case "min", "max":
+			return term(b.Name(), args...)
 		}
 	}
 	if e.call != nil {
